@@ -27,6 +27,10 @@ func DefaultBackoffConfig() BackoffConfig {
 
 func CalculateBackoff(cfg BackoffConfig, attempt int) time.Duration {
 	backoff := float64(cfg.InitialBackoff) * math.Pow(cfg.BackoffMultiplier, float64(attempt))
+	if math.IsNaN(backoff) {
+		// 0 * +Inf (zero InitialBackoff, overflowing power): the backoff is zero
+		backoff = 0
+	}
 	if backoff > float64(cfg.MaxBackoff) {
 		backoff = float64(cfg.MaxBackoff)
 	}
